@@ -99,7 +99,7 @@ def deep_observation(c: Converter, curie_probes: list[str], uri_probes: list[str
 
 
 
-def mk_incremental_queried(spec: dict, order, queries, case_sensitive: bool = True) -> Converter:
+def mk_incremental_queried(spec: dict, order, queries, case_sensitive: bool = True, repeat: int = 1) -> Converter:
     """Build the converter of ``spec`` incrementally, calling ``queries(converter)`` after every single mutation.
 
     Records are added in ``order``; a record with synonyms is added as its bare canonical pair first and then completed by
@@ -114,12 +114,15 @@ def mk_incremental_queried(spec: dict, order, queries, case_sensitive: bool = Tr
         r = recs[i]
         c.add_record(mk_bare_record(r["prefix"], r["uri_prefix"], r.get("pattern")))
         queries(c)
-        for syn in r["prefix_synonyms"]:
-            c.add_prefix(syn, r["uri_prefix"], merge=True, case_sensitive=case_sensitive)
-            queries(c)
-        for syn in r["uri_prefix_synonyms"]:
-            c.add_record(mk_bare_record(r["prefix"], syn), merge=True, case_sensitive=case_sensitive)
-            queries(c)
+        # with repeat > 1 every string arrives several times through the merge path (the later arrivals bring nothing new and
+        # must change nothing - in particular they must not be registered twice)
+        for _ in range(repeat):
+            for syn in r["prefix_synonyms"]:
+                c.add_prefix(syn, r["uri_prefix"], merge=True, case_sensitive=case_sensitive)
+                queries(c)
+            for syn in r["uri_prefix_synonyms"]:
+                c.add_record(mk_bare_record(r["prefix"], syn), merge=True, case_sensitive=case_sensitive)
+                queries(c)
     return c
 
 
@@ -348,6 +351,8 @@ def history_variants(spec: dict, queries=None, *, base: bool = True):
         yield "built at once", mk_converter(spec)
     yield "built incrementally with interleaved queries", mk_incremental_queried(spec, list(reversed(range(n))), queries or (lambda c: None))
     yield "built by merging whole records that are named after a synonym", mk_split_merge(spec)
+    yield "built incrementally, every synonym merged twice", mk_incremental_queried(spec, range(n), lambda c: None, repeat=2)
+    yield "constructed from a one-shot iterator of records", Converter(iter(mk_records(spec["records"])), delimiter=spec.get("delimiter", ":"))
     ci = mk_ci_incremental(spec, queries)
     if ci is not None:
         yield "built incrementally with case-insensitive merges", ci
